@@ -2,7 +2,7 @@
     [exact <lemma>].  Equality of states is Leibniz equality, so every subsequent input sequence
     is treated identically by the reset scanner and a new one. *)
 From Verif Require Import Base.Prelude Model.ShortMsg Model.PerChannel Model.CC14 Model.Nrpn
-  Model.Polling Proofs.PollingProofs Proofs.ScannerProofs Proofs.RepeatStable.
+  Model.Polling Proofs.PollingProofs Proofs.ScannerProofs Proofs.RepeatStable Proofs.PollShift.
 
 Theorem C17_cc14_reset_is_new : forall s, length s = 16%nat -> cc14_reset s = cc14_new_scanner.
 Proof. exact cc14_reset_is_new. Qed.
@@ -37,7 +37,15 @@ Proof.
   - exact (poll_resets_are_one_reset n s).
 Qed.
 
+(** reset leaves no stored instant behind: after a reset of the polling scanner, whatever it was
+    fed before and whenever the reset happens, what any continuation (feeds, polls, resets, time
+    steps) reports depends on the time steps only, not on the clock's reading -- as for a new one *)
+Theorem C17_polling_reset_forgets_the_clock : forall d s h now,
+  omap snd (poll_run (now + d) (poll_reset s) h) = omap snd (poll_run now (poll_reset s) h).
+Proof. exact reset_scanner_any_start. Qed.
+
 Print Assumptions C17_cc14_reset_is_new.
+Print Assumptions C17_polling_reset_forgets_the_clock.
 Print Assumptions C17_resets_in_a_row_are_one_reset.
 Print Assumptions C17_nrpn_reset_is_new.
 Print Assumptions C17_polling_reset_is_new.
